@@ -336,6 +336,10 @@ def ndigits(v, b):
 def valid(text):
     """operands must fit the precision (the property's premise); also used by the shrinker"""
     t = text.split()
+    if t[0] == "prod":
+        b = int(t[1], 16)
+        return len(t) >= 3 and (len(t) - 3) % 3 == 0 and all(
+            int(t[i], 16) >= 1 and ndigits(core.unhx(t[i + 1]), b) <= int(t[i], 16) for i in range(3, len(t), 3))
     b, p = int(t[1], 16), int(t[3], 16)
     if t[0] == "rfract":
         # Round::round_fract's own precondition: |fract| < B^precision
@@ -343,6 +347,8 @@ def valid(text):
     if t[0].startswith("mulp_") or t[0].startswith("divp_"):
         # each operand fits the precision of its own context
         return len(t) == 9 and p >= 1 and int(t[8], 16) >= 1 and ndigits(core.unhx(t[4]), b) <= p and ndigits(core.unhx(t[6]), b) <= int(t[8], 16)
+    if t[0] in XRANGE_OPS:
+        return p >= 1 and len(t) in (6, 8)
     if t[0] in LONG_OPS or t[0] == "rem":
         # round 3: the Context methods take any Repr - operands of any length
         return p >= 1 and len(t) in (6, 8)
@@ -438,6 +444,110 @@ def gen_prim(rng, tier, b, p):
 
 
 LONG_OPS = ("addl", "subl", "mull", "divl", "sqrl", "cubicl", "sqrtl", "invl")
+XRANGE_OPS = ("addx", "subx", "mulx", "sqrx", "cubicx")
+IMAX = (1 << 63) - 1
+
+
+def hexp(e):
+    """an exponent token: isize::MIN is spelled `min` (the harness helper cannot read it)"""
+    return "min" if e == -(1 << 63) else hx(e)
+
+
+def gen_cancel_rounds(rng, tier, b, p):
+    """round 4: effective subtractions of an over-long operand in which the expansion loop of repr_round_sum runs more
+    than once: the aligned sum cancels to a value that sits j digits below the rounding position (j = 1 .. gap), to a
+    power of the base minus a little (the break test's second clause), to zero plus / minus one unit of the last digit"""
+    d1 = rng.choice([1, 2, p, p + 1])
+    s1 = gen_sig(rng, b, d1)
+    gap = rng.choice([2, 3, p + 1, p + 2, 2 * p + 1, 3 * p + 2])
+    j = rng.range(0, gap - 1)
+    k = rng.below(6)
+    if k == 0:
+        rest = rng.choice([1, b - 1, rng.range(1, b ** (j + 1))])                     # a few digits, j places down
+    elif k == 1:
+        rest = b ** (j + 1) - rng.choice([1, 2, b - 1, rng.range(1, max(1, b ** j))])   # just below a power of the base
+    elif k == 2:
+        rest = b ** j                                                                # exactly a power of the base
+    elif k == 3:
+        rest = b ** (j + 1) + rng.choice([1, -1]) * rng.range(1, max(1, b ** j))       # around a power
+    elif k == 4:
+        rest = rng.range(1, b ** min(gap, p + 2))
+    else:
+        rest = gen_sig(rng, b, rng.range(1, gap))
+    sgn = rng.choice([1, -1])
+    s2 = s1 * b ** gap + sgn * rest
+    if s2 <= 0:
+        s2 = s1 * b ** gap + rest
+    e1 = rng.choice([0, 3, -7, 40])
+    e2 = e1 - gap
+    sg = rng.choice([1, -1])
+    op = rng.choice(["addl", "subl"])
+    sg2 = sg if op == "subl" else -sg
+    if rng.chance(1, 2):
+        return fmt(op, b, rng.choice(MODES), p, sg * s1, e1, sg2 * s2, e2)
+    return fmt(op, b, rng.choice(MODES), p, sg2 * s2, e2, sg * s1, e1) if op == "addl" else fmt(op, b, rng.choice(MODES), p, -sg2 * s2, e2, -sg * s1, e1)
+
+
+def gen_prod(rng, tier, b):
+    """Product for FBig: 0 .. 4 factors with their own precisions (by value and by reference)"""
+    n = rng.choice([0, 1, 2, 2, 3, 3, 4])
+    toks = []
+    for _ in range(n):
+        p = precisions(rng, tier)
+        d = min(rng.choice([1, 2, max(1, p - 1), p, p]), p)
+        s = gen_sig(rng, b, d)
+        if rng.chance(1, 40):
+            s = 0
+        toks += ["%x" % p, hx(rng.choice([1, -1]) * s), hx(rng.choice([0, 1, -3, 17, -300]))]
+    return "prod %x %s %s" % (b, rng.choice(MODES), " ".join(toks)) if toks else "prod %x %s" % (b, rng.choice(MODES))
+
+
+def gen_xrange(rng, tier, b, p):
+    """exponents next to isize::MAX / isize::MIN: mul / sqr / cubic whose first exponent sum, rounded exponent or
+    normalised exponent crosses the border (-2 .. +2 around it), add / sub with exponent gaps of 2^63 and more"""
+    m = rng.choice(MODES)
+    k = rng.below(10)
+    d1 = min(rng.choice([1, 2, p, p]), p)
+    d2 = min(rng.choice([1, 2, p]), p)
+    s1, s2 = gen_sig(rng, b, d1), gen_sig(rng, b, d2)
+
+    def stored(v):
+        # the operands themselves must be representable: no trailing zero digit that Repr::new would move into the exponent
+        while v % b == 0:
+            v //= b
+        return v
+    s1, s2 = stored(s1), stored(s2)
+    if k < 4:
+        # product exponent lands t beyond / before the border; the carry / trailing zeros of the product decide
+        top = rng.chance(1, 2)
+        t = rng.choice([-3 * p - 4, -2 * p, -p - 1, -2, -1, 0, 1, 2, p, 100])
+        e2 = rng.choice([0, 1, -1, 5, -5, 1 << 40, -(1 << 40)])
+        e1 = (IMAX + t - e2) if top else (-IMAX - 1 - t - e2)
+        e1 = max(-IMAX - 1, min(IMAX, e1))
+        if rng.chance(1, 3):
+            s1 = rng.choice([5, 2, 25, 4]) if b in (10,) else s1      # trailing zeros of the product: Repr::new raises the exponent
+            s2 = rng.choice([2, 5, 4, 25]) if b in (10,) else s2
+        return "mulx %x %s %x %s %s %s %s" % (b, m, p, hx(rng.choice([1, -1]) * s1), hexp(e1), hx(rng.choice([1, -1]) * s2), hexp(e2))
+    if k < 6:
+        top = rng.chance(1, 2)
+        t = rng.choice([-2 * p - 3, -2, -1, 0, 1, 2, 50])
+        half = (IMAX + t) // 2 if top else -((IMAX + 1 + t) // 2)
+        return "sqrx %x %s %x %s %s" % (b, m, p, hx(rng.choice([1, -1]) * s1), hexp(half + rng.choice([0, 1, -1])))
+    if k < 7:
+        top = rng.chance(1, 2)
+        t = rng.choice([-3 * p - 4, -3, 0, 3, 60])
+        third = (IMAX + t) // 3 if top else -((IMAX + 1 + t) // 3)
+        return "cubicx %x %s %x %s %s" % (b, m, p, hx(rng.choice([1, -1]) * s1), hexp(third + rng.choice([0, 1, -1])))
+    # add / sub: the larger operand stays clear of the top border (a carry must not overflow), gaps up to 2^64 - 1
+    e_hi = rng.choice([IMAX - 3, IMAX - 40, 1 << 62, 5, 0, -(1 << 62)])
+    e_lo = rng.choice([-IMAX - 1, -IMAX, -IMAX + 7, -(1 << 62), -2, e_hi - IMAX, e_hi - IMAX - 1, e_hi - IMAX + 1])
+    e_lo = max(-IMAX - 1, min(e_lo, e_hi))
+    op = rng.choice(["addx", "subx"])
+    a, ea, c, ec = s1, e_hi, s2, e_lo
+    if rng.chance(1, 2):
+        a, ea, c, ec = c, ec, a, ea
+    return "%s %x %s %x %s %s %s %s" % (op, b, m, p, hx(rng.choice([1, -1]) * a), hexp(ea), hx(rng.choice([1, -1]) * c), hexp(ec))
+
 
 
 def gen_long_addsub(rng, tier, b, p):
@@ -614,8 +724,10 @@ def gen_cases_raw(rng, tier, n):
             # round 3 shares the budget of the addition cases
             j = rng.below(12)
             pl = rng.choice([1, 1, 2, 2, 3, 4, 5, 7, 10, 17])
-            if j < 3:
+            if j < 2:
                 out.append(gen_long_addsub(rng, tier, b, pl))
+            elif j < 3:
+                out.append(gen_cancel_rounds(rng, tier, b, pl))
             elif j < 5:
                 out.append(gen_long_muldiv(rng, tier, b, pl))
             elif j < 7:
@@ -634,8 +746,10 @@ def gen_cases_raw(rng, tier, n):
             out.append(gen_two_prec(rng, tier, b))
         elif k < 86:
             out.append(gen_prim(rng, tier, b, p))
-        elif k < 88:
+        elif k < 87:
             out.append(gen_rfract(rng, tier, False))
+        elif k < 88:
+            out.append(gen_prod(rng, tier, b) if rng.chance(1, 2) else gen_xrange(rng, tier, b, rng.choice([1, 2, 3, 5, 10])))
         else:
             out.append(gen_sqrt(rng, tier, b, p))
     return out
